@@ -56,7 +56,7 @@ def scn_relog(rnd, sid):
 
 def scn_stall(rnd, sid):
     """synchronous logging with one handler call that takes seconds: the other threads have to wait, not give up"""
-    return {"id": sid, "mode": "logger" if sid % 2 else "bare", "producers": 3, "msgs": 2, "jitter": 0, "seed": rnd.randrange(1 << 30),
+    return {"id": sid, "mode": "bare" if sid % 3 == 0 else "logger", "producers": 3, "msgs": 2, "jitter": 0, "seed": rnd.randrange(1 << 30),
             "sinkDelayUs": 0, "stallMs": 3400, "pre": [], "script": [], "script2": [], "heapctx": False, "kind": "sync-stall"}
 
 
@@ -498,7 +498,7 @@ def run(pid, tier, seed):
         for _ in range(8 if tier == "quick" else 120):
             scns.append(scn_relog(rnd, len(scns) + 1))
     if pid == "C02":
-        for _ in range(2 if tier == "quick" else 8):
+        for _ in range(3 if tier == "quick" else 9):
             scns.append(scn_stall(rnd, len(scns) + 1))
     if pid == "C04":
         for _ in range(3 if tier == "quick" else 20):
